@@ -77,7 +77,11 @@ Pool ==
      Q("{ f(x: 1) zz }", "", "AG", "-"),                                                        \* 44 invalid after a literal
      Q("{ f(x: 1000) zz }", "", "AG", "-"),                                                     \* 45 ... of another length
      Q("{ f(x: 1) o { qq } }", "", "AH", "-"),                                                  \* 46
-     Q("{\n  f(x: 22)\n  o { qq }\n}", "", "AH", "-")                                           \* 47
+     Q("{\n  f(x: 22)\n  o { qq }\n}", "", "AH", "-"),                                          \* 47
+     \* one text, operation names that select nothing (each request has its own error)
+     Q("query A { a } query B { b }", "Zz", "AI", "-"),                                         \* 48
+     Q("query A { a } query B { b }", "Yy", "AJ", "-"),                                         \* 49
+     Q("query A { a } query B { b }", "", "AK", "-")                                            \* 50
   >>
 
 Schemas == {"s1", "s2"}
